@@ -37,6 +37,9 @@ def run():
         for qos in (["reliable"] if quick else ["reliable", "unreliable", "partial"]):
             for k, sc in enumerate(scripts):
                 scs.append(U.to_scenario("C01/%s/%s/%d" % (pol, qos, k), sc, policy=pol, qos=qos))
+        # the same scripts against a broker that reports a failure result for every odd-numbered chunk
+        for k, sc in enumerate(scripts[:10] if quick else scripts):
+            scs.append(U.to_scenario("C01/%s/rejected/%d" % (pol, k), sc, policy=pol, qos="reliable", reject=True))
         # unreliable QoS over a transport that offers a separate unreliable path (second in-memory pipe = AsUnreliable): the chunks
         # travel over the datagram-like path, acks and requests over the reliable one
         for k, sc in enumerate(scripts[:6] if quick else scripts):
